@@ -12,7 +12,10 @@ class C08(Prop):
                   "well-formed layout with exactly one blank line between paragraphs; the lossy reader turns it back into d exactly; the lossless "
                   "reader accepts it and reports the same names and non-blank value lines (exact values given by content (layout_doc d)); get is the "
                   "first match, set replaces the first match in place or appends, insert appends, remove deletes every match, all other fields and "
-                  "their order untouched (for every paragraph, no side condition). Each domain guard is shown necessary by a witness. Tied to the "
+                  "their order untouched (for every paragraph, no side condition); C08_paragraph: the same round trip for a single non-empty paragraph "
+                  "through Paragraph::from_str. The canonical domain excludes three kinds of value the English admits (continuation line starting "
+                  "with '#', CR inside a line, empty paragraph inside a document): each is a recorded known finding, not a silent exclusion, and "
+                  "each guard is shown necessary by a witness. Tied to the "
                   "code by the lossy-rt stream (print, both re-reads, and get/set/insert/remove histories compared step by step).")
     level_note = "Model: src/lossy.rs (Display for Field/Paragraph/Deb822 incl. str::lines, FromStr, Paragraph::{get,set,insert,remove}); Grammar.v / LossySpec.v as specification."
     rule = ("lossy-rt: random canonical lossy documents (1-3 paragraphs, 1-5 fields, values with 0-5 lines incl. empty values, empty first "
@@ -20,12 +23,29 @@ class C08(Prop):
             "second stream lossy-rt-any adds non-canonical values (correspondence only); non-trivial = at least one multi-line value or one op")
     trusted = ["Coq 8.16.1 kernel", "hand transcription of src/lossy.rs printer incl. the model of str::lines() (validated by lossy-rt)",
                "Grammar.v/LossySpec.v", "extraction, OCaml runner, Rust harness, Python driver"]
-    assumptions = ["continuation lines starting with '#' are outside the domain (an indented '#' line is a comment to both readers): C08_hash_guard_needed"]
+    assumptions = ["the theorems' domain LossySpec.canon_doc is narrower than the property's English in three places, each a recorded finding class "
+                   "generated on purpose and shown necessary by a witness: a continuation line starting with '#' (printed indented it is a comment to both "
+                   "readers: C08_hash_guard_needed), a CR inside a value line (printed, it ends the line: C08_cr_guard_needed), an empty paragraph "
+                   "inside a document (prints nothing: C08_empty_paragraph_guard_needed)"]
 
     def streams(self, tier, rng):
         n = {"quick": 8000, "search": 30000, "thorough": 300000}[tier]
         yield "lossy-rt", gen_lossy.rt_cases(n, rng, "c", canon=True)
         yield "lossy-rt-any", gen_lossy.rt_cases(n // 4, rng, "n", canon=False)
+        yield "lossy-rt", gen_lossy.edge_cases(max(300, n // 20), rng, "x")
+
+    def known_class(self, stream, fields, impl, model, why):
+        """values the English admits and the code does not turn back into an equal value: recorded, narrow classes"""
+        if stream != "lossy-rt" or not why or not ("printed" in why or "lossless reader" in why or "blank line" in why):
+            return None
+        d = parse_ldoc_enc(fields[0])
+        if any(any(l.startswith("#") for l in v.split("\n")[1:]) for p in d for _, v in p):
+            return "c08-hash-continuation-line"
+        if any("\r" in v for p in d for _, v in p):
+            return "c08-cr-in-value"
+        if any(p == [] for p in d):
+            return "c08-empty-paragraph"
+        return None
 
     def oracle(self, stream, fields, impl):
         if impl in ("PANIC", "HANG", "ABORT", "MISSING"):
